@@ -3,6 +3,8 @@ package main
 import (
 	"fmt"
 	"go/types"
+	"sort"
+	"strings"
 
 	"golang.org/x/tools/go/ssa"
 )
@@ -62,6 +64,9 @@ func init() {
 	register(&Rule{ID: "C20.2", Prop: "C20", Min: 5,
 		Text: "every sync.Pool of framework objects has a reset on its only way in or out: each Put site is dominated by the reset of the value being put, or every Get site is followed by the reset on all paths",
 		Run:  runC20_2})
+	register(&Rule{ID: "C20.6", Prop: "C20", Min: 2,
+		Text: "a recycled metadata slot is fully overwritten: allocArg hands out slots that still hold a previous pair, so both consumers - the query parser argsScanner.next (on every feasible path that reports a pair, tracked through its isKey flag) and appendArg - store the slot's key AND value",
+		Run:  runC20_6})
 	register(&Rule{ID: "C20.3", Prop: "C20", Min: 3,
 		Text: "getContext runs clean() then reInit() on every path before handing out a context; reInit installs a fresh swap map and the new session on every path",
 		Run:  runC20_3})
@@ -374,4 +379,83 @@ func runC20_3(c *Ctx) {
 	}, nil)
 	c.Check(okSwap && okSess, "reInit fresh-swap-and-session", p.Pos(re.Pos()), "reInit stores the session parameter and a fresh goutil.RwMap on every path",
 		fmt.Sprintf("reInit does not install a fresh swap map (%v) / the new session (%v) on every path", okSwap, okSess))
+}
+
+func runC20_6(c *Ctx) {
+	p := c.P
+	utils := Root + "/utils"
+	kvN, keyIdx := p.FieldIndex(utils, "argsKV", "key")
+	_, valIdx := p.FieldIndex(utils, "argsKV", "value")
+	// consumers of allocArg are exactly ParseBytes (through next) and appendArg
+	alloc := p.FuncObj(utils, "allocArg")
+	var users []string
+	for _, fn := range p.ShippedFuncs() {
+		if len(CallsTo(fn, alloc)) > 0 {
+			users = append(users, fn.Name())
+		}
+	}
+	sort.Strings(users)
+	c.Check(strings.Join(users, ",") == "ParseBytes,appendArg", "allocArg consumers", "", "ParseBytes (via argsScanner.next) and appendArg", fmt.Sprintf("allocArg (which recycles slots) is used by %v: every consumer must overwrite key and value; the rule knows only ParseBytes and appendArg", users))
+	// appendArg: both stores on every path
+	aa := p.Fn(utils, "", "appendArg")
+	for _, f := range []struct {
+		name string
+		idx  int
+	}{{"key", keyIdx}, {"value", valIdx}} {
+		idx := f.idx
+		ok, _ := p.MustPassFromEntry(aa, func(i ssa.Instruction) bool {
+			st, isSt := i.(*ssa.Store)
+			return isSt && isFieldAddr(st.Addr, kvN, idx)
+		}, nil)
+		c.fact("must-pass")
+		c.Check(ok, "appendArg overwrites the slot's "+f.name, p.Pos(aa.Pos()), "stored on every path", "appendArg does not overwrite the recycled slot's "+f.name+": a previous user's metadata survives")
+	}
+	// argsScanner.next: path-sensitive on the isKey flag
+	next := p.Fn(utils, "argsScanner", "next")
+	kv := next.Params[1]
+	var isKey *ssa.Phi
+	for _, b := range next.Blocks {
+		for _, in := range b.Instrs {
+			if phi, ok := in.(*ssa.Phi); ok && phi.Comment == "isKey" {
+				if isKey == nil || len(phi.Edges) > len(isKey.Edges) {
+					isKey = phi
+				}
+			}
+		}
+	}
+	if isKey == nil {
+		c.Undec("argsScanner.next overwrites key and value", p.Pos(next.Pos()), "cannot find the isKey flag of the scanner (idiom changed): the rule must be re-read")
+		return
+	}
+	const keyStored, valStored = 1, 2
+	bad := ""
+	nTrue := 0
+	vt := &ValTrack{P: p, Tracked: isKey, Consts: map[int64]uint{0: 0, 1: 1}}
+	vt.Visit = func(i ssa.Instruction, mask, fl uint32) (uint32, bool) {
+		if st, ok := i.(*ssa.Store); ok {
+			if fa, ok := st.Addr.(*ssa.FieldAddr); ok && fa.X == ssa.Value(kv) {
+				if fa.Field == keyIdx {
+					fl |= keyStored
+				}
+				if fa.Field == valIdx {
+					fl |= valStored
+				}
+			}
+		}
+		return fl, false
+	}
+	vt.OnExit = func(r *ssa.Return, mask, fl uint32) {
+		cst, ok := r.Results[0].(*ssa.Const)
+		if !ok || cst.Value == nil || cst.Value.String() != "true" {
+			return
+		}
+		nTrue++
+		if fl&keyStored == 0 || fl&valStored == 0 {
+			bad = fmt.Sprintf("return true at %s reachable with key stored=%v value stored=%v", p.InstrPos(r), fl&keyStored != 0, fl&valStored != 0)
+		}
+	}
+	vt.Run(next, 0)
+	c.fact("value-tracking")
+	c.Check(bad == "" && nTrue > 0, "argsScanner.next overwrites key and value", p.Pos(next.Pos()), fmt.Sprintf("every feasible `return true` stored both fields (%d states)", vt.States),
+		"the query parser can report a pair without overwriting both fields of the recycled slot ("+bad+"): a metadata container that is reused shows the value of a previous message for a key sent without value")
 }
